@@ -32,6 +32,14 @@ TailQuick   == {<<>>, <<"c">>}
 TailThorough == {<<>>, <<"c">>, <<"b", "c">>}
 LeadAll  == {"none", "block", "all"}
 TrailAll == {"none", "line", "block", "all"}
+(* line-number forms of the option, written relative to the statement's line:  *)
+(* "upK" = the K-th line above it, "downK" = the K-th line below it            *)
+LeadInts  == LeadAll \cup {"up1", "up2"}
+TrailInts == TrailAll \cup {"down0", "down1"}
+UpK(m)   == IF m = "up1" THEN 1 ELSE IF m = "up2" THEN 2 ELSE 0
+DownK(m) == IF m = "down1" THEN 1 ELSE 0
+IsUp(m)   == m \in {"up1", "up2"}
+IsDown(m) == m \in {"down0", "down1"}
 
 (* ---- ids ----------------------------------------------------------------- *)
 NewId == 9
@@ -91,11 +99,15 @@ LeadStart(lines, p, lm) ==
   IF lm = "block" THEN CHOOSE a \in 1..p : (\A z \in a..(p - 1) : IsCmt(lines, z)) /\ ~(a > 1 /\ IsCmt(lines, a - 1))
   ELSE IF lm = "all" THEN LET S == {z \in (PrevStmtPos(lines, p) + 1)..(p - 1) : IsCmt(lines, z)}
                           IN IF S = {} THEN p ELSE CHOOSE a \in S : \A z \in S : a <= z
+  ELSE IF IsUp(lm) THEN LET a == p - UpK(lm)  q == PrevStmtPos(lines, p) + 1      \* from that line on, never across code
+                        IN IF a > q THEN a ELSE q
   ELSE p
 TrailEnd(lines, p, tm) ==
   IF tm = "block" THEN CHOOSE b \in p..Len(lines) : (\A z \in (p + 1)..b : IsCmt(lines, z)) /\ ~IsCmt(lines, b + 1)
   ELSE IF tm = "all" THEN LET S == {z \in (p + 1)..(NextStmtPos(lines, p) - 1) : IsCmt(lines, z)}
                           IN IF S = {} THEN p ELSE CHOOSE b \in S : \A z \in S : b >= z
+  ELSE IF IsDown(tm) THEN LET b == p + DownK(tm)  q == NextStmtPos(lines, p) - 1   \* up to that line, never across code
+                          IN IF b < q THEN b ELSE q
   ELSE p
 Seg(s, a, b) == IF a > b THEN <<>> ELSE SubSeq(s, a, b)
 
@@ -114,9 +126,15 @@ RefInsert(lines, i, add) ==    \* i in 1..NStmt+1 : before statement i / at the 
 
 (* ---- facts for TokenLaws ---------------------------------------------------- *)
 TvPart(m) == [k |-> "str", b |-> FALSE, w |-> m, sg |-> "", hasn |-> FALSE, n |-> 0]
+IntPart(n) == [k |-> "int", b |-> FALSE, w |-> "", sg |-> "", hasn |-> TRUE, n |-> n]
+(* the option value for statement i: line numbers are 0-based                  *)
+TvOf(lines, i, lm, tm) ==
+  LET p0 == IF IsUp(lm) \/ IsDown(tm) THEN PosOfStmt(lines, i) - 1 ELSE 0
+  IN [n |-> 2, a |-> <<IF IsUp(lm) THEN IntPart(p0 - UpK(lm)) ELSE TvPart(lm),
+                       IF IsDown(tm) THEN IntPart(p0 + DownK(tm)) ELSE TvPart(tm)>>]
 NameIdx(st) == SelectSeq([q \in DOMAIN st.k |-> q], LAMBDA q : st.k[q] < 1000)
 ExtStmt(st, q) == IF st.k[q + 1] = NEWLINE THEN q + 1 ELSE q + 2    \* through the line comment and NEWLINE
-CaseOf(pre, post, ns, nt, lm, tm, deleting) ==
+CaseOf(pre, post, ns, nt, tv, deleting) ==
   LET a == Stream(pre)  b == Stream(post)
       n == Len(a.k)
       names == NameIdx(a)
@@ -128,6 +146,6 @@ CaseOf(pre, post, ns, nt, lm, tm, deleting) ==
        valid |-> TRUE, ns |-> ns, nt |-> nt,
        own |-> {q \in 1..(n - 1) : a.k[q] >= 1000}, uown |-> {q \in 1..(Len(b.k) - 1) : b.k[q] >= 1000}, uoOk |-> TRUE,
        newc |-> <<>>, newk |-> <<NewId>>, stmt |-> TRUE, kind |-> "Module", field |-> "body", form |-> "slice", deleting |-> deleting,
-       tv |-> [n |-> 2, a |-> <<TvPart(lm), TvPart(tm)>>],
+       tv |-> tv,
        elifPre |-> FALSE, elifPost |-> FALSE, soleGen |-> FALSE, dependent |-> FALSE ]
 =============================================================================
